@@ -10,6 +10,7 @@ import (
 	"fmt"
 	"math/rand"
 	"sort"
+	"strconv"
 	"strings"
 	"sync"
 
@@ -38,6 +39,10 @@ func verStr(k []byte, seq uint64, del bool, v []byte) string {
 func runC18(c *Case, out func(string)) {
 	if hdrVal(c.Hdr, "mode", "seq") == "conc" {
 		runC18Conc(c, out)
+		return
+	}
+	if hdrVal(c.Hdr, "mode", "seq") == "sentinel" {
+		runC18Sentinel(c, out)
 		return
 	}
 	mt := memtable.NewMemTable()
@@ -347,9 +352,81 @@ func runC18Conc(c *Case, out func(string)) {
 	out(fmt.Sprintf("META conc_inserts=%d reader_observations=%d nontrivial=1", len(ins), nobs))
 }
 
+// Directed concurrent scenario: a sentinel key is inserted first; the writer then inserts
+// `n` keys in ascending (dir=up) or descending (dir=down) order just below the sentinel, so
+// that every new node lies on the search path of a reader looking for the sentinel; readers
+// Seek the sentinel and run Get on it all the time. Every Seek must be valid and positioned
+// on the sentinel itself (it was inserted before any reader started, nothing else is >= it).
+func runC18Sentinel(c *Case, out func(string)) {
+	n, _ := strconv.Atoi(hdrVal(c.Hdr, "n", "20000"))
+	dir := hdrVal(c.Hdr, "dir", "up")
+	mt := memtable.NewMemTable()
+	sentinel := []byte("zzzz-sentinel")
+	mt.Put(sentinel, []byte("v"), 1)
+	stop := make(chan struct{})
+	var wg sync.WaitGroup
+	var fmu sync.Mutex
+	failMsg := ""
+	seeks := 0
+	for r := 0; r < 3; r++ {
+		wg.Add(1)
+		go func() {
+			defer wg.Done()
+			k := 0
+			for {
+				select {
+				case <-stop:
+					fmu.Lock()
+					seeks += k
+					fmu.Unlock()
+					return
+				default:
+				}
+				it := mt.NewIterator()
+				it.Seek(sentinel)
+				k++
+				var m string
+				if !it.Valid() {
+					m = "concurrent Seek(sentinel) is invalid although the sentinel was inserted before any reader started"
+				} else if !bytes.Equal(it.Key(), sentinel) {
+					m = fmt.Sprintf("concurrent Seek(sentinel) positioned on %q", it.Key())
+				} else if _, found := mt.Get(sentinel); !found {
+					m = "concurrent Get(sentinel) not found"
+				}
+				if m != "" {
+					fmu.Lock()
+					if failMsg == "" {
+						failMsg = m
+					}
+					fmu.Unlock()
+				}
+			}
+		}()
+	}
+	for i := 0; i < n; i++ {
+		j := i
+		if dir == "down" {
+			j = n - i
+		}
+		mt.Put([]byte(fmt.Sprintf("zzzz-%08d", j)), []byte("x"), uint64(i+2))
+	}
+	close(stop)
+	wg.Wait()
+	if failMsg != "" {
+		out("ORACLE FAIL " + failMsg)
+	} else {
+		out("ORACLE ok")
+	}
+	out(fmt.Sprintf("META conc_inserts=%d sentinel_seeks=%d nontrivial=1", n, seeks))
+}
+
 func genC18(w *bufio.Writer, seed int64, n int, tier string) {
 	r := rand.New(rand.NewSource(seed*6151 + 18))
 	for ci := 0; ci < n; ci++ {
+		if ci%20 == 19 {
+			fmt.Fprintf(w, "case c18-%d-%d mode=sentinel n=%d dir=%s\nend\n", seed, ci, 30000+r.Intn(20000), []string{"up", "up", "up", "down"}[r.Intn(4)])
+			continue
+		}
 		conc := ci%10 == 9
 		if conc {
 			fmt.Fprintf(w, "case c18-%d-%d mode=conc\n", seed, ci)
@@ -359,7 +436,7 @@ func genC18(w *bufio.Writer, seed int64, n int, tier string) {
 		nkeys := 2 + r.Intn(6)
 		nops := 3 + r.Intn(40)
 		if conc {
-			nops = 1500 + r.Intn(2500)
+			nops = 300 + r.Intn(500)
 			nkeys = 12
 		}
 		immAt := -1
